@@ -5,6 +5,7 @@ import TonicModel.Lemmas.WebServer
 import TonicModel.Lemmas.WebClient
 import TonicModel.Lemmas.WebClientBlock
 import TonicModel.Lemmas.WebCaller
+import TonicModel.Lemmas.WebClientHead
 /-
 C17 — grpc-web client layer recovers messages and full trailers under any chunking.
 Property theorems only; helper lemmas live in `Lemmas/WebClient` (and `Lemmas/GrpcWeb`).
@@ -383,6 +384,73 @@ theorem C17_witnesses_repaired :
     Fixed.observe [.data [0, 0, 0, 0, 2, 9]] = [.err] := by
   decide +kernel
 
+
+/-! ### the response head: content-type, status, version, headers (`ResponseFuture::poll`) -/
+
+/-- **Response content-type variants.**  `head` is the head of the inner service's response — ANY
+status, version and header list, in particular any `content-type` value: absent, one of the four
+literals tonic-web knows, another message format (`application/grpc-web+json`, `+thrift`), with
+parameters (`application/grpc-web+proto; charset=utf-8`), in any letter case
+(`Application/GRPC-Web+Proto`), or anything else.  The client layer hands the head on untouched
+(nothing is rewritten, `content-type` included), decodes the body with `Encoding::None`
+whatever the head says, and `C17_lossless` applies unchanged: for all message frames, trailers,
+either style, all chunkings and `Pending`s the caller gets the message bytes, ONE trailers frame
+with every name and full value, then the end.  (The head is universally quantified: the
+statement covers the responses the independent classifier `Spec.GrpcWeb.respKind` calls binary
+grpc-web — media type `application/grpc-web[+format]` in any case, parameters ignored, or no
+content-type — and equally the text kind and everything else: the code does not distinguish
+them.  For a body in the text form see `C17_text_response_is_an_error`.) -/
+theorem C17_response_content_type_variants (head : RespHead) (sp : Bool)
+    (frames : List (Bool × Bytes)) (trailers : List Pair) (chunks : List Bytes) (evs : List BodyEv)
+    (hsched : evs.filter notPending = chunks.map BodyEv.data)
+    (hbody : chunks.flatten = framesBytes frames ++ trailersFrame sp trailers)
+    (hframes : ∀ f ∈ frames, f.2.length < 4294967296)
+    (htr : ∀ p ∈ trailers, lowerNameOk p.1 = true ∧ plainValueOk p.2 = true)
+    (hlen : (trailersBlock sp trailers).length < 4294967296) :
+    (respond head evs).1 = head ∧ responseEncoding head = WebServer.Enc.none ∧
+    ∃ datas : List Bytes,
+      (respond head evs).2 = datas.map Out.data ++ [Out.trailers trailers, Out.eos] ∧
+      datas.flatten = framesBytes frames :=
+  ⟨rfl, rfl, C17_lossless sp frames trailers chunks evs hsched hbody hframes htr hlen⟩
+
+/-- **Text-mode responses are not decoded — but never end cleanly.**  The client layer does not
+select base64 decoding by the response's content-type (`client_response` is `Encoding::None`;
+the client never asks for the text form: it sends `content-type: application/grpc-web` and no
+`accept`).  If a server answers in the text form all the same — the body's data bytes are a
+non-empty base64 text the independent reader (`Spec.GrpcWeb.b64StreamDecode`) accepts, under any
+head, in any chunking — the caller's stream ends with an error: neither messages nor a status
+are made up, and there is no clean end hiding the server's status. -/
+theorem C17_text_response_is_an_error (head : RespHead) (evs : List BodyEv) (raw : Bytes)
+    (hne : flat evs ≠ []) (htext : Spec.GrpcWeb.b64StreamDecode (flat evs) = some raw) :
+    (respond head evs).2.getLast? = some Out.err :=
+  C17_truncation_is_error evs (WebClientHeadLemmas.text_not_wellFramed (flat evs) raw hne htext)
+
+/-- **The caller's view of a 200 response does not depend on the rest of the head**: with
+`client::Grpc` over the layer, the messages and the end of a server-streaming call are those of
+`C17_caller_sees_status` / `C17_caller_sees_messages`, whatever content-type, version and further
+headers the response carries (headers tonic interprets itself — `grpc-status`, `grpc-encoding` —
+excluded: Model/WebCaller). -/
+theorem C17_caller_view_ignores_head (head : RespHead) (h200 : head.status = 200)
+    (evs : List BodyEv) :
+    WebCaller.streamingAt (respond head evs).1 (respond head evs).2 =
+      WebCaller.streaming (Fixed.observe evs) :=
+  WebClientHeadLemmas.streamingAt_200 head h200 (Fixed.observe evs)
+
+/-- witnesses: the body of `C17_witnesses_repaired` under the content-types an independent
+adversary's gate let through undecoded (seeded/C17d), and its text form -/
+theorem C17_response_witnesses :
+    (respond { headers := [(str "content-type", str "application/grpc-web+json")] }
+      [.data (msg ++ tf0)]).2 = [.data msg, .trailers [(str "grpc-status", str "0")], .eos] ∧
+    (respond { headers := [(str "content-type", str "Application/GRPC-Web+Proto")] }
+      [.data (msg ++ tf0)]).2 = [.data msg, .trailers [(str "grpc-status", str "0")], .eos] ∧
+    (respond { status := 503, version := .h2,
+               headers := [(str "content-type", str "application/grpc-web-text")] }
+      [.data (str "AAAAAAIJCYAAAAAPZ3JwYy1zdGF0dXM6MA0K")]) =
+      ({ status := 503, version := .h2,
+         headers := [(str "content-type", str "application/grpc-web-text")] }, [.err]) ∧
+    Spec.GrpcWeb.b64StreamDecode (str "AAAAAAIJCYAAAAAPZ3JwYy1zdGF0dXM6MA0K") = some (msg ++ tf0) := by
+  decide +kernel
+
 /-! Non-vacuity: hypotheses are satisfiable by non-trivial values. -/
 
 example :
@@ -414,5 +482,21 @@ example : ¬ WellFramed [0, 0, 0] := by decide
 example : ¬ WellFramed [0, 0, 0, 0, 2, 9] := by decide
 example : ¬ WellFramed [7, 0, 0, 0, 0] := by decide
 example : WellFramed ([0, 0, 0, 0, 2, 9, 9] ++ [128, 0, 0, 0, 0]) := by decide
+
+-- the independent classifier of response content-types (`Spec.GrpcWeb.respKind`)
+example : Spec.GrpcWeb.respKind none = .binary := by decide
+example : Spec.GrpcWeb.respKind (some (str "application/grpc-web+json")) = .binary := by decide
+example : Spec.GrpcWeb.respKind (some (str "application/grpc-web+proto; charset=utf-8")) = .binary := by decide
+example : Spec.GrpcWeb.respKind (some (str "Application/GRPC-Web+Proto")) = .binary := by decide
+example : Spec.GrpcWeb.respKind (some (str "application/grpc-web-text+proto")) = .text := by decide
+example : Spec.GrpcWeb.respKind (some (str "APPLICATION/GRPC-WEB-TEXT; charset=utf-8")) = .text := by decide
+example : Spec.GrpcWeb.respKind (some (str "application/grpc")) = .other := by decide
+example : Spec.GrpcWeb.respKind (some (str "application/grpc-webx")) = .other := by decide
+example : Spec.GrpcWeb.respKind (some (str "text/html")) = .other := by decide
+
+-- `C17_text_response_is_an_error`: hypotheses satisfiable (the text form of message + trailers frame)
+example : (str "AAAAAAIJCYAAAAAPZ3JwYy1zdGF0dXM6MA0K") ≠ [] ∧
+    (Spec.GrpcWeb.b64StreamDecode (str "AAAAAAIJCYAAAAAPZ3JwYy1zdGF0dXM6MA0K")).isSome = true := by
+  decide +kernel
 
 end C17
